@@ -13,10 +13,10 @@ def lastRes (x : Parser × PullRes) (ins : List Instr) : List Instr × List (Lis
   | .ve ls => (ins ++ [{ verb := lastVerb (verbOf x.1.comp.meth ls), lines := ls }], x.1.log)
   | _ => (ins, x.1.log)
 
-/-- the same from the automaton: a pending last line is complete (and passed over if it does not fit the stash);
+/-- the same from the automaton: a pending last line is complete, whatever its length;
 an event it completes is handed back unless its METHOD gives no verb (`echs_evical_pull` passes those over) -/
 def finish (A : Abs) (ins : List Instr) : List Instr × List (List Byte) :=
-  if A.sc.pend = true ∧ A.cur ≠ [] ∧ A.cur.length < stashSize then
+  if A.sc.pend = true ∧ A.cur ≠ [] then
     (match (procLine A.comp A.cur).2 with
       | .ve =>
         if verbOf (procLine A.comp A.cur).1.meth (procLine A.comp A.cur).1.cur == "X" then ins
@@ -75,23 +75,8 @@ theorem last_spec (q : Parser) (A : Abs) (hpost : Post q A) (ins : List Instr) :
   have hnf := post_not_fold q A hpost
   by_cases hm : Marked q
   · have hpend : A.sc.pend = true := hpost.rel.mark.1 hm
-    by_cases hfit : A.cur.length < stashSize
-    case neg =>
-      -- the last line does not fit: passed over
-      have hover : stashSize ≤ A.cur.length := by omega
-      have hk := (hpost.rel.over hover).1
-      have hround := round_marked_skip q ⟨hm, hnf⟩ hk
-      have hq1 : ¬ Marked ({ unmark q with skip := false, stash := [] } : Parser) := not_marked_of_eolp _ rfl
-      have hn := pullEv_noline (q.buf.length + 2) ({ unmark q with skip := false, stash := [] } : Parser)
-        (mu_lt_fuel ({ unmark q with skip := false, stash := [] } : Parser)) hq1 hnl
-      rw [pullEv_round _ q (mu_lt_fuel q), hround]
-      dsimp only
-      rw [lastRes_need _ _ hn.1, hn.2]
-      unfold finish
-      rw [if_neg (fun hx => by omega)]
-      show (ins, q.log) = _
-      rw [hpost.rel.log]
-    obtain ⟨hk, hst⟩ := hpost.rel.fits hfit
+    have hk := hpost.rel.skip
+    have hst := hpost.rel.stash
     by_cases hs : q.stash.length ≠ 0
     · have hcur : A.cur ≠ [] := by
         rw [← hst]; intro hx; rw [hx] at hs; exact hs rfl
@@ -110,7 +95,7 @@ theorem last_spec (q : Parser) (A : Abs) (hpost : Post q A) (ins : List Instr) :
         rw [hpost.rel.log, hst]
       rw [pullEv_round _ q (mu_lt_fuel q), hround]
       unfold finish
-      rw [if_pos ⟨hpend, hcur, hfit⟩]
+      rw [if_pos ⟨hpend, hcur⟩]
       unfold procRes
       cases hr : (procLine A.comp A.cur).2 with
       | none =>
@@ -144,7 +129,7 @@ theorem last_spec (q : Parser) (A : Abs) (hpost : Post q A) (ins : List Instr) :
       dsimp only
       rw [lastRes_need _ _ hn.1, hn.2]
       unfold finish
-      rw [if_neg (fun hx => hx.2.1 hcur)]
+      rw [if_neg (fun hx => hx.2 hcur)]
       show (ins, q.log) = _
       rw [hpost.rel.log]
   · have hn := pullEv_noline (q.buf.length + 2) q (mu_lt_fuel q) hm hnl
